@@ -120,6 +120,23 @@ def fam_respawn_crash(rng):
                           init_fail=[]), users={"u1": u1}, fam="respawn_crash")
 
 
+def fam_map(rng):
+    maxw = rng.choice([1, 2, 3])
+    tmo = rng.choice([None, 0.5])
+    nit = rng.choice([1, 1, 2])
+    lens = [rng.randint(0, 5) for _ in range(nit)]
+    u1 = [["map", 1, lens, rng.randint(1, 7)]]
+    if rng.random() < 0.5:
+        u1 = [["submit", 1, "ok"], ["wait", 1]] + ([["sleep", 1.0]] if tmo else []) + u1
+    if rng.random() < 0.4:
+        u1.append(["map", 2, [rng.randint(1, 5)], rng.randint(1, 3)])
+    u1 += [["shutdown", True, False]]
+    users = {"u1": u1}
+    if rng.random() < 0.3:
+        users["u2"] = [["submit", 50, "ok"], ["submit", 51, "raise"], ["wait", 50], ["wait", 51]]
+    return dict(exec=dict(kind="plain", max_workers=maxw, timeout=tmo), users=users, fam="map")
+
+
 def fam_kill(rng):
     maxw = rng.choice([1, 2, 2])
     nt = rng.randint(2, 6)
@@ -219,7 +236,7 @@ def fam_reusable(rng):
     return dict(exec=dict(kind="reusable", max_workers=m0, timeout=tmo), users=users, fam="reusable")
 
 
-FAMILIES = dict(reusable=fam_reusable, respawn_crash=fam_respawn_crash, mixed=fam_mixed, crash=fam_crash, kill=fam_kill, timeout=fam_timeout, saturation=fam_saturation, init=fam_init)
+FAMILIES = dict(map=fam_map, reusable=fam_reusable, respawn_crash=fam_respawn_crash, mixed=fam_mixed, crash=fam_crash, kill=fam_kill, timeout=fam_timeout, saturation=fam_saturation, init=fam_init)
 
 
 def policies(rng, fam):
